@@ -146,10 +146,11 @@ def oracle(line, out):
         elif op == "ac":
             me.app(other.data)
             other.consume(len(other.data))
-        elif op == "mt":
+        elif op in ("mt", "sp"):
+            # sp = chunkqueue_append_splice_pipe_tempfile: returns the number of octets taken from the pipe
             d = pat(a[0], a[1])
             rc = int(res.split(":")[1])
-            if rc == 0:
+            if rc == (0 if op == "mt" else a[1]):
                 me.app(d)
             else:
                 # error surfaced: queue must hold a prefix of (old ++ d)
@@ -276,7 +277,13 @@ OPS_W = [("am", 14), ("an", 4), ("ab", 7), ("bo", 5), ("gm", 6), ("af", 6), ("ad
          ("co", 2), ("pk", 6), ("rd", 5), ("sq", 3), ("rs", 2)]
 
 
-def gen_seq(rng, nops, cs, tmpsz, files, big=False, faulty=False, zero=False):
+# the splice stream: the tail temp-file chunk is consumed from the front (mark_written / read_data / steal) between
+# appends through splice(), pwrite() and pwritev()
+SP_W = [("sp", 16), ("mt", 4), ("am", 4), ("ab", 2), ("mw", 12), ("rd", 6), ("pk", 3), ("st", 4), ("sw", 4), ("ac", 1),
+        ("cr", 2), ("re", 1), ("af", 2), ("rs", 1), ("sq", 1)]
+
+
+def gen_seq(rng, nops, cs, tmpsz, files, big=False, faulty=False, zero=False, opsw=None):
     """One op sequence.  Tracks fault-free lengths so that most operations
     respect the callers' obligations.  zero=False keeps 0-length chunks out of
     the queues (no empty append_buffer_open/commit, no 0-byte temp-file append,
@@ -286,8 +293,8 @@ def gen_seq(rng, nops, cs, tmpsz, files, big=False, faulty=False, zero=False):
     if big:
         sz = sz + [65535, 65536, 65537, 131071, 131072, 4 * cs + 1]
     ln = [0, 0]
-    names = [o for o, _ in OPS_W]
-    weights = [w for _, w in OPS_W]
+    names = [o for o, _ in (opsw or OPS_W)]
+    weights = [w for _, w in (opsw or OPS_W)]
     ops = []
     seed = rng.randint(1, 250)
     z = [0] if zero else []
@@ -298,8 +305,10 @@ def gen_seq(rng, nops, cs, tmpsz, files, big=False, faulty=False, zero=False):
         if op in ("st", "sw", "ac") and ln[1 - qi] == 0 and rng.random() < 0.8:
             qi = 1 - qi
         seed += 1
-        if op in ("am", "an", "ab", "bo", "mt"):
+        if op in ("am", "an", "ab", "bo", "mt", "sp"):
             n = rng.choice(sz + z * 4)
+            if op == "sp":
+                n = min(n, 60000)     # one pipe-full
             if op in ("ab", "bo") and rng.random() < 0.5:
                 n = rng.choice([1, 10, 500, 1023, 1024, 1025] + z * 2)
             if op in ("am", "an", "ab") and rng.random() < 0.05:
@@ -402,6 +411,41 @@ def gen_random(rng, n, faulty, big=False, zero=False, maxops=30):
         if not big and rng.random() < 0.2:
             # per-queue upload_temp_file_size: chunkqueue_set_tempdirs(q0, A), (q1, B)
             tmpsz = "%d/%d/%d" % (tmpsz, rng.choice([0, 1, 3, 1000, 4096]), rng.choice([0, 2, 500, 2048, 70000]))
+        if ops:
+            lines.append(header(cs, tmpsz, ndirs, ws, ms, files) + " " + " ".join(ops))
+    return lines
+
+
+SPLICE_HAND = [
+    # head of the tail temp chunk consumed, then more data spliced in: it must land behind the unsent octets
+    "seq 1024 0 1 - - - sp,0,1,5000 mw,0,1000 sp,0,2,3000 pk,0,10000 rd,0,7000",
+    "seq 1024 0 1 - - - mt,0,1,5000 rd,0,4999 sp,0,2,1 sp,0,3,60000 pk,0,70000 mw,0,60002",
+    # leading MEM chunks are spilled first
+    "seq 1024 0 1 - - - am,0,1,700 sp,0,2,3000 rd,0,100 sp,0,3,100 pk,0,5000",
+    "seq 1024 0 2 s100,n - - am,0,1,700 am,0,2,2000 sp,0,3,3000 pk,0,9000 sp,0,4,10 pk,0,9000",
+    # temp file size threshold: a new temp file is started
+    "seq 1024 1000 1 - - - sp,0,1,999 mw,0,10 sp,0,2,5 sp,0,3,7 mw,0,995 sp,1,4,0 pk,0,100",
+    # a closed temp file re-opened read-only by a reader: splice() gets EBADF
+    "seq 1024 5000 1 k,e - - mt,0,1,64 mt,0,2,10 rd,0,10 sp,0,3,10 pk,0,100 sp,0,4,10 pk,0,100",
+    # spliced chunk stolen partly, the rest grows on
+    "seq 1024 0 1 - - - sp,0,1,3000 st,1,1000 sp,0,2,500 sw,1,2200 pk,1,4000 pk,0,4000",
+]
+
+
+def gen_splice(rng, n, faulty):
+    lines = []
+    for _ in range(n):
+        cs = rng.choice([1024, 2048, 8192, 0])
+        tmpsz = rng.choice([0, 0, 65536, 16384, 5000, 100000, 1000])
+        ndirs = rng.choice([0, 1, 2, 3])
+        files = [rng.choice([100, 5000, 20000]) for _ in range(rng.randint(0, 2))]
+        ecs = cs or 8192
+        ws, ms = "-", "-"
+        if faulty:
+            ws = gen_wsched(rng, rng.randint(1, 6), 3 * ecs)
+            if rng.random() < 0.3:
+                ms = "".join(rng.choice("kkf") for _ in range(rng.randint(1, 4)))
+        ops = gen_seq(rng, rng.randint(3, 16), ecs, tmpsz, files, big=rng.random() < 0.2, faulty=faulty, opsw=SP_W)
         if ops:
             lines.append(header(cs, tmpsz, ndirs, ws, ms, files) + " " + " ".join(ops))
     return lines
@@ -563,7 +607,7 @@ READ_PROBES = [
 
 
 # --------------------------------------------------------------------------
-NOTABLE = ("mt:-1", "sw:-1", "sq:0", "pk:-1", "rd:-1", "cm:skip", "mw:skip", "cr:skip", "co:skip")
+NOTABLE = ("sp:-1", "mt:-1", "sw:-1", "sq:0", "pk:-1", "rd:-1", "cm:skip", "mw:skip", "cr:skip", "co:skip")
 
 
 def classify(line, out):
@@ -773,6 +817,8 @@ def run(ctx):
     ] + READ_PROBES + ZERO_PROBES + [
         ("cq(0-length operations, random)", gen_random(rng, 1500 if q else 30000, False, zero=True, maxops=14)
          + gen_random(rng, 1500 if q else 30000, True, zero=True, maxops=14)),
+        ("cq(splice into a partly consumed temp file)", SPLICE_HAND + gen_splice(rng, 2500 if q else 40000, False)
+         + gen_splice(rng, 1500 if q else 25000, True)),
     ]
     for name, lines in streams:
         for l in lines:
@@ -804,7 +850,9 @@ def run(ctx):
         "compact_mem only on MEM-only queues, a self-referencing append_cq_range stays inside the queue "
         "(the harness skips such calls; out-of-range file chunks are compared with the model but not judged by the oracle)",
         "a failed write()/pwritev() writes nothing; a short write writes a prefix (kernel semantics)",
-        "read faults, splice()/sendfile()/mmap paths and close() failures are not scripted"]
+        "read faults, splice() results other than a complete transfer (EAGAIN, EINVAL, short), the socket variant "
+        "chunkqueue_append_splice_sock_tempfile (two splice() calls through an internal pipe around the scripted "
+        "pipe variant), sendfile()/mmap paths and close() failures are not scripted"]
 
 
 def replay_line(ctx, rep):
